@@ -15,8 +15,13 @@ int main(int argc, char **argv)
         if (!ok) { fprintf(stderr, "cannot read %s\n", argv[i]); return 3; }
         vp_report rep;
         rep.want_render = !quiet;
+        if (!quiet)
+        {
+            setenv("VP_TRACE", "1", 1);
+            printf("== %s [%s/%s] %zu bytes\n", argv[i], info->property, info->unit, t.size());
+            fflush(stdout);
+        }
         int rc = vp_run(t.data(), t.size(), &rep);
-        if (!quiet) { printf("== %s [%s/%s] %zu bytes\n%s\n", argv[i], info->property, info->unit, t.size(), rep.render.c_str()); }
         if (rc == 1)
         {
             printf("REPLAY-VIOLATION sig=%s msg=%s\n", rep.sig.c_str(), rep.msg.c_str());
